@@ -17,7 +17,8 @@ def sh(cmd, cwd=None, timeout=3000):
 
 def fixcmd(cmd, pid, wt):
     import re
-    return re.sub(r"/tmp/wt2?-%s" % pid.lower(), wt, cmd).replace("<repo>", wt)
+    cmd = re.sub(r"/tmp/wt\d?-%s" % pid.lower(), wt, cmd)
+    return re.sub(r"<repo[^>]*>", wt, cmd)
 
 
 def main():
@@ -50,8 +51,17 @@ def main():
             if rc != 0:
                 print("PATCH DOES NOT APPLY:\n", out); res["apply_error"] = out[-2000:]
             else:
-                rc, out = sh("go build ./... && go test -vet=off -count=1 ./... 2>&1 | tail -30", cwd=wt)
-                fails = [l for l in out.splitlines() if l.startswith("FAIL") or l.startswith("--- FAIL")]
+                # the repository's suite has two flaky tests (mgr TestTaskRepeat* is timing
+                # sensitive under load, m TestTable uses random prefixes): a run that fails
+                # only in those is repeated, up to three runs.
+                for attempt in range(3):
+                    rc, out = sh("go build ./... && go test -vet=off -count=1 ./... 2>&1 | grep -v 'no test files' | tail -60", cwd=wt)
+                    fails = [l for l in out.splitlines() if l.startswith("FAIL") or l.startswith("--- FAIL")]
+                    named = [l for l in out.splitlines() if l.startswith("--- FAIL")]
+                    flaky_only = fails and named and all(("TestTaskRepeat" in l or "TestTable" in l) for l in named)
+                    if not flaky_only:
+                        break
+                    res["suite_note"] = "attempt %d failed only in the repository's flaky tests %s; repeated" % (attempt + 1, sorted(set(l.split()[2] for l in named)))
                 res["suite_passes_with_patch"] = (rc == 0 and not fails)
                 res["suite_output_tail"] = out[-1500:]
                 shutil.copy(demo, os.path.join(wt, meta["demo_path"]))
